@@ -129,6 +129,7 @@ struct vf_ss vf_sst[8];
 int g_fresh;                      /* index of the shared state created by the verified call (0 = none) */
 int g_broken;                     /* promises destroyed or overwritten while unsatisfied (std::future_error broken_promise for the waiting consumer) */
 int g_sets;                       /* successful set_value calls */
+_Bool g_copy_may_throw;           /* harness switch: storing a value in a shared state may throw (a throwing copy/move of X) */
 void vf_promise_ctor(struct %(PR)s *p)
 {
   p->ss = 5;
@@ -159,6 +160,7 @@ void vf_promise_set_value(struct %(PR)s *p, int *v)
 {
   __CPROVER_assert(SS_OK(p->ss), "[C18] promise with a corrupt state index");
   if (p->ss == 0 || vf_sst[p->ss].satisfied) { vf_exc = 1; return; }                     /* no_state / promise_already_satisfied */
+  if (g_copy_may_throw && vf_nondet_bool()) { vf_exc = 1; vf_user_threw = 1; return; }    /* X's copy/move into the shared state throws: the state stays unsatisfied */
   vf_sst[p->ss].satisfied = 1; vf_sst[p->ss].value = *v;
   if (vf_sst[p->ss].set_count < 1000) vf_sst[p->ss].set_count = vf_sst[p->ss].set_count + 1;
   if (g_sets < 10000) g_sets = g_sets + 1;
@@ -198,12 +200,12 @@ UNIT = dict(
         'std::map is the abstract focus-key model of unit soh (one focus key per key kind, other entries arbitrary; non-focus promises are unsatisfied in the pending maps and satisfied in the used maps - the class invariant)',
         'the four maps are re-havocked under the class invariant at every acquisition of promiseLock (other threads); postconditions are relative to the state at critical-section entry',
         'precondition taken from the statement: each key is requested once (getFuture is verified for a key that is neither pending nor completed)',
-        'instantiation verified: X = int (value copy cannot throw)',
+        'instantiation verified: X = int; in the setDelayedValue harnesses storing the value into the shared state may additionally throw (stands for a throwing copy/move of a general X); fulfillAllPromises and the destructor are verified for a non-throwing X only',
     ])
 
 TAGMAP = {'L1': 'C18', 'L2': 'C18', 'L5': 'C18', 'noexcept': 'C18'}
 R3 = CNT_R(1000)
-DG = 'vf_sst, g_fresh, g_broken, g_sets, g_pi, g_ui, g_ps, g_us, ' + GHOST_ASSIGNS
+DG = 'g_copy_may_throw, vf_sst, g_fresh, g_broken, g_sets, g_pi, g_ui, g_ps, g_us, ' + GHOST_ASSIGNS
 ONE_CS = 'vf_n_acq_excl == __CPROVER_old(vf_n_acq_excl) + 1 && vf_n_rel == __CPROVER_old(vf_n_rel) + 1 && vf_held == 0 && !self->promiseLock.excl_me'
 SETUP = ('vf_DO = self; self->promiseLock.guards = 0; self->promiseByInteger.used = 0; self->usedPromiseByInteger.used = 1; self->promiseByString.used = 0; self->usedPromiseByString.used = 1; '
          'self->promiseByInteger.felem.second.ss = 1; self->usedPromiseByInteger.felem.second.ss = 1; self->promiseByString.felem.second.ss = 2; self->usedPromiseByString.felem.second.ss = 2;')
@@ -211,7 +213,7 @@ PRE = 'vf_DO == self && DO_OK(self) && !self->promiseLock.excl_me && self->promi
 
 
 def entry(**kw):
-    e = dict(props='C18', setup=SETUP, requires=[PRE + kw.pop('pre', '')])
+    e = dict(props='C18', setup=SETUP + kw.pop('setup_extra', ' g_copy_may_throw = 0;'), requires=[PRE + kw.pop('pre', '')])
     e.update(kw)
     e['ensures'] = [('C18', ONE_CS, 'one critical section of promiseLock around the whole body, released on every exit'),
                     ('C18', 'M_OK(self->promiseByInteger, 1, 0) && M_OK(self->promiseByString, 2, 0)', 'class invariant: pending promises are unsatisfied'),
@@ -233,9 +235,12 @@ def by_key(kind):
 FN = {}
 for kind, w in (('int', lambda fm: 'index' in ' '.join(fm['params'])), ('str', lambda fm: 'name' in ' '.join(fm['params']))):
     isf, pend, used, fss, gp, gu = by_key(kind)
-    FN.setdefault(r'DelayedObjects::setDelayedValue', []).append(entry(where=w, ensures=[
-        ('C18', '(%s && %s) ==> (!vf_exc && %s.satisfied && %s.value == __CPROVER_old(*val) && %s.set_count == 1 && g_sets == 1 && %s.has_f && !%s.has_f)' % (isf, gp, fss, fss, fss, used, pend),
+    FN.setdefault(r'DelayedObjects::setDelayedValue', []).append(entry(where=w, pre=' && !vf_user_threw', setup_extra=' g_copy_may_throw = vf_nondet_bool();', ensures=[
+        ('C18', '(%s && %s && !vf_exc) ==> (%s.satisfied && %s.value == __CPROVER_old(*val) && %s.set_count == 1 && g_sets == 1 && %s.has_f && !%s.has_f)' % (isf, gp, fss, fss, fss, used, pend),
          'a pending key: its future becomes ready with exactly this value, exactly once, and the promise moves to the completed map'),
+        ('C18', '(%s && %s && vf_exc) ==> (!%s.satisfied && %s.set_count == 0 && g_sets == 0 && %s.has_f && !%s.has_f)' % (isf, gp, fss, fss, pend, used),
+         'if storing the value throws (copy/move of X), the promise stays PENDING: a retry, fulfillAllPromises or the destructor still fulfils the future'),
+        ('C18', 'vf_exc ==> (g_copy_may_throw && vf_user_threw)', 'nothing else throws'),
         ('C18', '(%s && !%s) ==> (!vf_exc && g_sets == 0 && %s.has_f == %s && !%s.has_f)' % (isf, gp, used, gu, pend), 'an unknown or already completed key: harmless no-op (set_value is not even attempted)'),
         ('C18', '!(%s) ==> (%s.has_f == %s && %s.has_f == %s)' % (isf, pend, gp, used, gu), 'other keys are unaffected')]))
     FN.setdefault(r'DelayedObjects::isRecognized', []).append(entry(where=w, ensures=[
@@ -285,7 +290,7 @@ DTOR_INV = ('SS_OK(%(pend)s.felem.second.ss) && SS_OK(%(pend)s.other.second.ss) 
             '((%(gp)s && %(pend)s.fpos < vf_begin%(k)d.idx) ? (%(fss)s.satisfied && %(fss)s.set_count == 1 && %(fss)s.value == 0) : (%(gp)s ? (!%(fss)s.satisfied && %(fss)s.set_count == 0) : 1)) && '
             '%(fss)s.future_taken && (%(gu)s ==> (%(fss)s.satisfied && %(fss)s.set_count == 1))')
 FN[r'DelayedObjects::dtor'] = dict(
-    props='C18', setup=SETUP, requires=[PRE],
+    props='C18', setup=SETUP + ' g_copy_may_throw = 0;', requires=[PRE],
     ensures=[('C18', 'g_pi ==> (vf_sst[1].satisfied && vf_sst[1].set_count == 1 && vf_sst[1].value == 0)', 'a future still pending at destruction is fulfilled with a default-constructed value before its promise dies (never hangs, no broken promise)'),
              ('C18', 'g_ps ==> (vf_sst[2].satisfied && vf_sst[2].set_count == 1 && vf_sst[2].value == 0)', 'the same for string keys'),
              ('C18', 'g_broken == 0 && !vf_exc && vf_held == 0', 'no promise is abandoned; the lock is released before the members are destroyed')],
